@@ -117,11 +117,12 @@ def stepsAllAux (el : Nat) : List TStride → List (List Nat) → Nat → List (
   | _, _, dyn => ([], dyn)
 
 /-- `get_step_ops(bound_ops, memref, in_bytes=True)` evaluated: static steps are `step·el`,
-dynamic ones follow the contiguity assumption starting from `bound[maxkey]·maxstep·el`. -/
+dynamic ones follow the contiguity assumption starting from `bound[maxkey]·maxstep·el` — or, since the repair f7f5ecf
+(C10-N1), from the element size when the layout has no static step at all. -/
 def stepsAll (el : Nat) (dims : List TStride) (bs : List (List Nat)) : List (List Nat) :=
   let fs := dims.flatten
   let (k, v) := maxKey fs
-  let dyn0 := (bs.flatten.getD k 0) * (v * el)
+  let dyn0 := if v = 0 then el else (bs.flatten.getD k 0) * (v * el)
   (stepsAllAux el dims bs dyn0).1
 
 /-- `Σ_depth (bound − 1)·step` of one dimension, in ℤ (the IR computes `subi bound, 1`). -/
